@@ -20,6 +20,9 @@ def run(model, rep, tier):
     tsrules.hook_balance(ctx, rep, 'C05.R3')
     tsrules.record_units(rep, tsrules.exploration(ctx))
     r4_who_may_call(ctx, rep)
+    rep.rule('C05.R6', 'the loop that drives the result in post-mortem mode honours the driver protocol: '
+             'stopTest (and with it the layers\' testTearDown) follows every startTest on every exit')
+    tsrules.driver_brackets(ctx, rep, 'C05.R6')
     rep.rule('C05.R5', 'premises of the bases-first argument for the per-test layer list '
              '(gather_layers pre-order over all bases; order_by_bases reverses once and keeps first '
              'occurrences)')
